@@ -145,10 +145,11 @@ macro "close_ov" : tactic => `(tactic| (
   first
     | rfl
     | (refine ok_ov_congr _ _ _ _ _ _ _ _ _ _ _ ?_ ?_ ?_
-       · first | rfl | omega
-       · (try simp only [evsS, evsL, tyEvs, blockEvs, exprStmtTail, tombLink, Ty.kind, qubitEvs, qubitToks, argEvs, argToks,
-            List.cons_append, List.nil_append, List.append_assoc]); (try rfl)
-       · (try simp only [toksS, toksL, tyToks, qubitToks, argToks, tk, List.length_cons, List.length_nil, List.length_append]); omega)))
+       · first | rfl | omega | (simp only [List.length_cons, List.length_nil]; omega)
+       · (try simp only [evsS, evsL, tyEvs, blockEvs, exprStmtTail, tombLink, Ty.kind, PTy.kind, qubitEvs, qubitToks, argEvs, argToks,
+            paramEvs, typedEvs, retEvs, List.cons_append, List.nil_append, List.append_assoc]); (try rfl)
+       · (try simp only [toksS, toksL, tyToks, qubitToks, argToks, typedToks, retToks, tk, List.length_cons, List.length_nil,
+            List.length_append]); omega)))
 
 set_option hygiene false in
 /-- symbolic execution from the base state `s` (names `s`, `hr` of the enclosing lemma) -/
